@@ -150,13 +150,23 @@ def _oracle_doc(src):
                     fail('parent', '%s[%d] (%r): .parent is not the node whose view produced it' % (
                         where, i, str(a)[:30]))
                     return False
-            elif a is not b:
+            elif not same_leaf(a, b):
                 fail(key, '%s[%d] is %r, expected %r' % (where, i, str(a)[:30], str(b)[:30]))
                 return False
         return True
 
+    def same_leaf(a, b):
+        # tokens by identity; a plain str (text of a brace-less argument) has no identity of its own
+        # (CPython shares one-character strings): by value
+        return a is b or (type(a) is str and type(b) is str and a == b)
+
+    def ident(x):
+        if isinstance(x, D.TexNode):
+            x = x.expr
+        return (0, x) if type(x) is str else (1, id(x))
+
     def ids(xs):
-        return sorted(id(x.expr) if isinstance(x, D.TexNode) else id(x) for x in xs)
+        return sorted(ident(x) for x in xs)
 
     def check(node, root, depth_bound):
         bump('nodes')
@@ -184,10 +194,11 @@ def _oracle_doc(src):
             desc = list(node.descendants)
             clo = closure(e, [])
             bump('descendants', len(desc))
-            if ids(desc) != sorted(id(x) for x in clo):
+            if ids(desc) != ids(clo):
                 fail('descendants', '%s: %d descendants, closure of contents has %d (or other objects)' % (
                     where, len(desc), len(clo)))
-            if len(set(id(x) for x in clo)) != len(clo):
+            objs = [id(x) for x in clo if type(x) is not str]
+            if len(set(objs)) != len(objs):
                 fail('descendants', '%s: an object occurs twice in the closure' % where)
             # parents of everything reached
             for d in desc:
@@ -214,7 +225,7 @@ def _oracle_doc(src):
             text = list(node.text)
             lv = leaves(e, [])
             bump('text_leaves', len(lv))
-            if len(text) != len(lv) or any(a is not b for a, b in zip(text, lv)):
+            if len(text) != len(lv) or any(not same_leaf(a, b) for a, b in zip(text, lv)):
                 fail('text', '%s: text %r, leaves %r' % (where, [str(t)[:10] for t in text][:6],
                                                          [str(t)[:10] for t in lv][:6]))
             pos = [t.position for t in text if isinstance(t, Token) and isinstance(t.position, int)]
@@ -244,7 +255,7 @@ def oracle(ctx, seeds, scale):
     r = Result()
     common.impl()
     docs = [s for s in seeds if isinstance(s, str)]
-    docs += _docs(ctx, 'oracle-docs', ctx.pick(6000, 60000) * scale)
+    docs += _docs(ctx, 'oracle-docs', ctx.pick(10000, 100000) * scale)
     res = gen.pmap(_oracle_doc, docs, chunk=50)
     for s, (st, fails) in zip(docs, res):
         r.count(('doc', s), st.get('nodes', 0) >= 3)
